@@ -31,6 +31,10 @@ def main():
             if verdict != "SEED-CONFIRMED" or not os.path.isdir(src):
                 print(f"skip {src}: {verdict}")
                 continue
+            owner = re.search(r"-(C\d+)/[A-Z]/?$", src)
+            if owner and owner.group(1) != prop:
+                print(f"cross-check {src} against {prop}: exit {rc} (not archived under {prop})")
+                continue
             sid = f"{prop}-{os.path.basename(src.rstrip('/'))}"
             dst = os.path.join(VERIF, "seeded", sid)
             os.makedirs(dst, exist_ok=True)
